@@ -8,6 +8,7 @@ mod c31;
 mod c34;
 mod c39;
 mod c40;
+mod c41;
 mod driver;
 
 use std::sync::Mutex;
@@ -72,6 +73,7 @@ fn main() {
         "C34" => c34::run(&mut rep, thorough, replay),
         "C39" => c39::run(&mut rep, thorough, replay),
         "C40" => c40::run(&mut rep, thorough, replay),
+        "C41" => c41::run(&mut rep, thorough, replay),
         other => machinery(&format!("vf_hydro_sim2 does not serve property {other}")),
     }));
     if let Err(m) = r {
